@@ -97,7 +97,7 @@ def run(spec):
     loop = VLoop()
     install_clock(loop)
     rec = {"id": spec["id"], "kill_at": spec["kill_at"], "completed": False, "bounds": [], "pre": {"nin": 0, "nout": 0}, "post": {"nin": 0, "nout": 0},
-           "restored": {"nin": 0, "nout": 0}, "wire": [], "cont_error": "", "raised": False, "target": spec["target"]}
+           "restored": {"nin": 0, "nout": 0}, "live2": {"nin": 0, "nout": 0}, "restored2": {"nin": 0, "nout": 0}, "wire": [], "cont_error": "", "raised": False, "target": spec["target"]}
     try:
         with watchdog(30):
             s = session.Session.__new__(session.Session)
@@ -162,6 +162,7 @@ def run(spec):
             except Exception as ex:
                 rec["cont_error"] = type(ex).__name__ + ":" + str(ex)[:80]
             wire += [dict(f, inc=2) for f in abs_frames(s2.ep.sent)]
+            rec["live2"] = {"nin": c2._session.next_num_in, "nout": c2._session.next_num_out}
             rec["wire"] = [{"seq": f["seq"], "sha": f["sha"], "inc": f["inc"], "kind": f["kind"]} for f in wire if not f["pd"] and f["kind"] != "SEQRESET"]
             j2.cursor.close()
             j2.conn.close()
@@ -169,6 +170,14 @@ def run(spec):
             c2._journaler = None
             s2.ep.j = None
             del j2
+            # the continuation is itself a completed history: what a third object would restore must be what the second held
+            j3 = Journaler(jf)
+            s3 = j3.create_or_load("B", "A")
+            rec["restored2"] = {"nin": s3.next_num_in, "nout": s3.next_num_out}
+            j3.cursor.close()
+            j3.conn.close()
+            j3.conn = j3.cursor = _Closed()
+            del j3
     except (Exception, Livelock) as ex:
         rec["harness_error"] = type(ex).__name__ + ":" + str(ex)[:100]
     finally:
